@@ -152,6 +152,9 @@ class ConstBitStream(Bits):
 
         """
         s = Bits.__and__(self, bs)
+        if s is self:
+            # 's & s' on an immutable stream hands back self: return a new object rather than moving self.pos
+            s = copy.copy(self)
         s._pos = 0
         return s
 
@@ -164,6 +167,8 @@ class ConstBitStream(Bits):
 
         """
         s = Bits.__or__(self, bs)
+        if s is self:
+            s = copy.copy(self)
         s._pos = 0
         return s
 
